@@ -155,6 +155,54 @@ Theorem c09_node_sig_tokens_v0_not_injective :
 Proof. exact node_sig_tokens_v0_not_injective. Qed.
 Print Assumptions c09_node_sig_tokens_v0_not_injective.
 
+(* ---- symlink commands as definitions: what the signature must cover ---- *)
+
+(* a loadable symlink command (exactly one declared output) has a signature: outputs[0] is not read past the vector *)
+Theorem c09_symlink_tokens_defined : forall s, symlink_wf s -> exists p, sdef_sig_tokens s = Some p.
+Proof. exact sdef_sig_tokens_defined. Qed.
+Print Assumptions c09_symlink_tokens_defined.
+
+(* every signature-relevant part of a symlink command - declared output, contents, declared inputs - is determined
+   by the tokens, whatever link-output-path / repair-via-ownership-analysis / the name are *)
+Theorem c09_symlink_tokens_injective : forall s1 s2, symlink_wf s1 -> symlink_wf s2 ->
+  sdef_sig_tokens s1 = sdef_sig_tokens s2 -> symlink_relevant s1 = symlink_relevant s2.
+Proof. exact sdef_sig_tokens_injective. Qed.
+Print Assumptions c09_symlink_tokens_injective.
+
+Theorem c09_symlink_tokens_of_relevant : forall s1 s2,
+  symlink_relevant s1 = symlink_relevant s2 -> sdef_sig_tokens s1 = sdef_sig_tokens s2.
+Proof. exact sdef_sig_tokens_of_relevant. Qed.
+Print Assumptions c09_symlink_tokens_of_relevant.
+
+Theorem c09_symlink_def_sig_injective : forall H0 HC, ideal_chain H0 HC ->
+  forall s1 s2, symlink_wf s1 -> symlink_wf s2 ->
+  sdef_sig H0 HC s1 = sdef_sig H0 HC s2 -> symlink_relevant s1 = symlink_relevant s2.
+Proof. exact sdef_sig_injective. Qed.
+Print Assumptions c09_symlink_def_sig_injective.
+
+(* single-attribute edits; the first one also when link-output-path is set (virtual declared output pattern) *)
+Theorem c09_symlink_change_output : forall n i o1 o2 c l r, o1 <> o2 ->
+  sdef_sig_tokens (mkSdef n i [o1] c l r) <> sdef_sig_tokens (mkSdef n i [o2] c l r).
+Proof. exact sdef_change_output. Qed.
+Print Assumptions c09_symlink_change_output.
+
+Theorem c09_symlink_change_contents : forall n i o c1 c2 l r, c1 <> c2 ->
+  sdef_sig_tokens (mkSdef n i [o] c1 l r) <> sdef_sig_tokens (mkSdef n i [o] c2 l r).
+Proof. exact sdef_change_contents. Qed.
+Print Assumptions c09_symlink_change_contents.
+
+Theorem c09_symlink_change_inputs : forall n i1 i2 o c l r, i1 <> i2 ->
+  sdef_sig_tokens (mkSdef n i1 [o] c l r) <> sdef_sig_tokens (mkSdef n i2 [o] c l r).
+Proof. exact sdef_change_inputs. Qed.
+Print Assumptions c09_symlink_change_inputs.
+
+(* the current code does not hash the name, link-output-path and the repair flag (a moved link is re-created because
+   the stored link info no longer matches, not because of the signature) *)
+Theorem c09_symlink_unhashed_parts : forall n1 n2 i o c l1 l2 r1 r2,
+  sdef_sig_tokens (mkSdef n1 i o c l1 r1) = sdef_sig_tokens (mkSdef n2 i o c l2 r2).
+Proof. exact sdef_unhashed_parts. Qed.
+Print Assumptions c09_symlink_unhashed_parts.
+
 (* ---- the re-run decision (BuildEngine scanRule + ExternalCommand::isResultValid) ---- *)
 
 (* a rule built before by a task that was not cancelled, whose recorded dependencies report no change: the command
@@ -247,3 +295,10 @@ Proof. exact rerun_hypotheses_instance. Qed.
 Example c09_overread_instance :
   rerun_decision ex_stored 42 false [mkOnode false false (ex_info 10); mkOnode false false (ex_info 10)] = DOverRead.
 Proof. vm_compute. reflexivity. Qed.
+
+(* a symlink command with a virtual declared output and link-output-path; and the over-read of a command written
+   without an "outputs:" key *)
+Example c09_symlink_instance :
+  symlink_wf ex_sdef /\ sdef_sig_tokens ex_sdef = Some ([60;97;62], [TStr [116]; TStr [105]]) /\
+  sdef_sig_tokens (mkSdef [76] [] [] [116] [108] false) = None.
+Proof. exact sdef_instance. Qed.
